@@ -263,6 +263,17 @@ def g_params_small(ch, label="p"):
     return copy.deepcopy(PARAM_DEFAULTS)
 
 
+def _raw_encinfo(kw):
+    """a well-formed suit-encryption-info blob (bstr .cbor COSE_Encrypt_Tagged) as `encrypt` writes it."""
+    from .refcbor import enc, Tag
+    rcp = [b"", {1: -6, 4: enc(0x7FFFFFE0)}, None] if not kw else [b"", {1: -5, 4: enc(5)}, bytes(range(40))]
+    return enc(enc(Tag(96, [enc({1: 3}), {5: bytes(range(12))}, None, [rcp]]))).hex()
+
+
+RAW_ENCINFO = _raw_encinfo(False)
+RAW_ENCINFO_KW = _raw_encinfo(True)
+
+
 def g_param_value(ch, name, label="pv"):
     """every alternative / boundary value of one parameter."""
     if name in ("suit-parameter-vendor-identifier", "suit-parameter-class-identifier", "suit-parameter-device-identifier"):
@@ -284,7 +295,7 @@ def g_param_value(ch, name, label="pv"):
         k = ch.choose(label + ".kind", ["cose", "raw"])
         if k == "cose":
             return g_cose_encrypt(ch, label + ".enc")
-        return {"raw": ch.choose(label + ".raw", ["4100", "40", "581900" + "11" * 24, "43d86080"])}
+        return {"raw": ch.choose(label + ".raw", [RAW_ENCINFO, RAW_ENCINFO_KW])}
     if name == "suit-parameter-uri":
         return ch.choose(label, TXT)
     if name == "suit-parameter-invoke-args":
@@ -568,3 +579,59 @@ NODE_SCENARIOS = {
     "version": n_version,
     "envelope": n_envelope,
 }
+
+
+# ---------------------------------------------------------------------------------------------------
+# union-decoder alphabet (C03): byte strings that begin with a complete CBOR item of another alternative
+# ---------------------------------------------------------------------------------------------------
+CONFUSABLE = ["05", "05ff", "0102030405", "1841ff", "1841", "20", "20ff", "6161", "6161ff", "f6", "f6aabb", "f5", "a0", "80",
+              "d82a00", "", "4101", "ff", "1b0000000000000001"]
+PART_CONFUSABLE = ([{"raw": x} for x in CONFUSABLE] + [{"raw": hexs(n, 8)} for n in (1, 2, 15, 16, 17)]
+                   + ["x" * 15, "x" * 16, "a", "Z", "7", "#", "é", "ß", "€", 0, 23, -1, -24, 24, "61", "0011", "deadbeef"])
+
+
+def n_confusable(ch, root):
+    where = ch.choose("where", ["content", "key-id", "ciphertext", "recipient-ciphertext", "component-part", "unprotected-kid", "iv",
+                                "cw-id", "signature", "payload"])
+    if where == "component-part":
+        p1 = copy.deepcopy(ch.choose("part", PART_CONFUSABLE))
+        pos = ch.choose("pos", ["only", "first", "last"])
+        cid = {"only": [p1], "first": [p1, "M"], "last": ["INSTLD_MFST", p1]}[pos]
+        slot = ch.choose("slot", ["components", "manifest-component-id", "dependency-prefix", "text-key"])
+        if slot == "components":
+            return minimal(common={"suit-components": [cid]}), {}
+        if slot == "manifest-component-id":
+            return minimal(man={"suit-manifest-component-id": cid}), {}
+        if slot == "dependency-prefix":
+            return minimal(common={"suit-dependencies": {"0": {"suit-dependency-prefix": cid}}, "suit-components": [["a"]]}), {}
+        import json
+        return minimal(man={"suit-text": digest()}, env={"suit-text": {"en": {json.dumps(cid): {"suit-text-vendor-name": "v"}}}}), {}
+    v = ch.choose("value", CONFUSABLE)
+    if where == "content":
+        return in_params({"suit-parameter-content": v}), {}
+    if where == "payload":
+        return minimal(env={"suit-integrated-payloads": {"#a": v}}), {}
+    if where in ("key-id", "unprotected-kid", "cw-id", "signature"):
+        blk = {"CoseSign1Tagged": {"protected": {"suit-cose-algorithm-id": "cose-alg-es-256"}, "unprotected": {}, "payload": None, "signature": "aabb"}}
+        if where == "key-id":
+            blk["CoseSign1Tagged"]["protected"]["suit-cose-key-id"] = v
+        elif where == "unprotected-kid":
+            blk["CoseSign1Tagged"]["unprotected"] = {"suit-cose-key-id": v}
+        elif where == "cw-id":
+            blk["CoseSign1Tagged"]["payload"] = {"CW ID": v}
+        else:
+            blk["CoseSign1Tagged"]["signature"] = v
+        d = minimal()
+        d["SUIT_Envelope_Tagged"]["suit-authentication-wrapper"]["SuitAuthentication0"] = blk
+        return d, {}
+    enc_ = copy.deepcopy(PARAM_DEFAULTS["suit-parameter-encryption-info"])
+    if where == "ciphertext":
+        enc_["CoseEncryptTagged"]["ciphertext"] = v
+    elif where == "recipient-ciphertext":
+        enc_["CoseEncryptTagged"]["recipients"][0]["ciphertext"] = v
+    else:
+        enc_["CoseEncryptTagged"]["unprotected"]["suit-cose-iv"] = v
+    return in_params({"suit-parameter-encryption-info": enc_}), {}
+
+
+NODE_SCENARIOS["confusable"] = n_confusable
